@@ -161,7 +161,7 @@ class Engine(CoreMixin, ExprMixin, CallMixin, StmtMixin, SpecMixin):
             for p in params:
                 if spec_from_ctype(getattr(p, 'ctype', None) or '') == 'real' or c.sorts.get(p.arg) == 'real':
                     st.locals[p.arg] = z3.FP(p.arg, z3.Float64())
-        if 'loop_body' in c.flags or 'stmts_from' in c.flags:
+        if 'loop_body' in c.flags or 'stmts_from' in c.flags or c.flags.get('stmts_after_loop'):
             for nm, spec in c.sorts.items():
                 if nm not in st.locals:
                     if isinstance(spec, (tuple, list)):
@@ -203,6 +203,19 @@ class Engine(CoreMixin, ExprMixin, CallMixin, StmtMixin, SpecMixin):
                 raise KeyError('statement %r of %s' % (c.flags['stmts_from'], c.qualname))
             body = fn.body[idxs[0]:]
             self.notes.add('%s verified from statement %r on (the statements before it are outside this contract)' % (c.qualname, c.flags['stmts_from']))
+        if c.flags.get('stmts_before_loop'):
+            # verify the head of the function up to (not including) its first top-level loop (extracted mechanically)
+            k = next((i for i, s_ in enumerate(body) if isinstance(s_, (ast.For, ast.While))), len(body))
+            body = body[:k]
+            self.notes.add('%s verified up to its first top-level loop (the loop and the statements after it are outside this contract)' % c.qualname)
+        if c.flags.get('stmts_after_loop'):
+            # verify the tail of the function that follows its first top-level loop (extracted mechanically)
+            k = next((i for i, s_ in enumerate(body) if isinstance(s_, (ast.For, ast.While))), None)
+            if k is None:
+                raise KeyError('no top-level loop in %s' % c.qualname)
+            body = body[k + 1:]
+            self.notes.add('%s verified from the statement after its first top-level loop on (the statements up to and including that loop '
+                           'are outside this contract)' % c.qualname)
         outs = self.exec_block(body, st, fr)
         if 'loop_body' in c.flags:
             outs = [('normal' if k == 'continue' else k, s_, v_) for k, s_, v_ in outs]
